@@ -13,6 +13,7 @@ CONSTANTS
   MaxLoss = 1
   MaxDup = 1
   MaxPopCalls = 2
+  MaxMidFlush = 0
   Algo = "ring"
   Impl = "fixABC"
   Sampling = FALSE
